@@ -16,7 +16,7 @@ def scratch_copy(repo=None):
     repo = repo or build.REPO
     d = tempfile.mkdtemp(prefix="tl-mut-")
     subprocess.check_call(["rsync", "-a", "--exclude", "/target", "--exclude", "/.git",
-                           "--exclude", "/integ", repo + "/", d + "/"])
+                           repo + "/", d + "/"])
     return d
 
 
